@@ -149,15 +149,45 @@ def build(case, d, tr, bound=None, permute_seed=None, shared=None):
     return sim, env
 
 
+def _poke(sim, tr):
+    """A second start() on a running simulation must be refused and change nothing."""
+    try:
+        sim.start()
+        tr.violate('C11', 'not_refused', kind='second_start_while_paused')
+    except RuntimeError:
+        tr.cnt['c11_refused_pokes'] += 1
+
+
+def run_plain(case, d):
+    """Run a case on a plain simpy.Environment with no monitoring (bounded)."""
+    import simpy
+    from . import hooks as _h
+    saved = _h.CUR
+    _h.set_trace(None)
+    try:
+        tr = _h.Trace(gen.spec_of(case))
+        sim, env = build(case, d, tr, bound=min(gen.serial_bound(case), 120))
+        try:
+            sim.start()
+        except Exception:
+            pass
+    finally:
+        _h.set_trace(saved)
+        shutil.rmtree(d, ignore_errors=True)
+
+
 def run_case(case, bound=None, schedule=None, keep=False, check_plan=None, workdir=None,
-             driver=None, shared=None):
+             driver=None, shared=None, interleave=None, poke=False):
     """Run one case.  schedule: None -> start(); or a list [k, u1, u2, ...]
     meaning start(k), resume(u1), ... ; the last element may be 'end' =
     keep resuming one step at a time until is_finished().
     -> (result dict, Trace)"""
     use_repo()
     _N[0] += 1
-    d = workdir or os.path.join(WORK, 'c%d_%d' % (os.getpid(), _N[0]))
+    # four scratch slots per process: configuration and workflow paths recur with new content,
+    # as they do when a user edits and re-runs a configuration in one session
+    d = workdir or os.path.join(WORK, 'c%d_%d' % (os.getpid(), _N[0] % 4))
+    shutil.rmtree(d, ignore_errors=True)
     spec = gen.spec_of(case)
     tr = hooks.Trace(spec)
     tr.check_plan = check_plan
@@ -178,6 +208,16 @@ def run_case(case, bound=None, schedule=None, keep=False, check_plan=None, workd
             else:
                 k = schedule[0]
                 sim.start(k)
+                if poke:
+                    _poke(sim, tr)
+                if interleave is not None:
+                    # another, unobserved simulation runs to completion in this process while
+                    # this one is paused (two live simulations must not share state)
+                    hooks.set_trace(None)
+                    try:
+                        run_plain(interleave, d + '_other')
+                    finally:
+                        hooks.set_trace(tr)
                 for u in schedule[1:]:
                     if u == 'end':
                         while not sim.is_finished():
@@ -185,6 +225,8 @@ def run_case(case, bound=None, schedule=None, keep=False, check_plan=None, workd
                     else:
                         if u > env.now:
                             sim.resume(u)
+                            if poke:
+                                _poke(sim, tr)
                 sim.monitor.collate_events()
                 res['df'] = sim.monitor.df
                 res['tasks'] = sim._generate_final_task_data()
